@@ -24,11 +24,13 @@ ASSUMPTIONS = ['two histories reaching the same hidden-state digest have the sam
                'scheduling granularity is the source line inside library frames; interleavings inside one torch kernel are not modelled',
                'platform is bit-reproducible with one torch thread (self-test: every pristine reference is computed twice in separate processes)']
 CHUNK = 1
+MIXED = ['dwt_per', 'dtf_a', 'scat1', 'dwt1d_pc']          # modules that also receive a call with an input of the other float dtype
 HARNESSES = ['two_constructs', 'same_instance_two_inputs', 'inverse_dtcwt_twice', 'construct_vs_call', 'f32_vs_f64', 'scat_same_instance']
 
 
 def all_ops():
     ops = [['construct', k] for k in purity.ORDER] + [['load', n] for n in purity.LOADS]
+    ops += [['mixed', k, 0] for k in MIXED]
     for k in purity.ORDER:
         for i in (0, 1):
             for g in ('nograd', 'grad'):
@@ -51,7 +53,7 @@ def bounds(tier):
 
 def plan(tier):
     # pristine references: every operation as the first operation of a fresh interpreter, computed twice (determinism self-test)
-    ops = all_ops()
+    ops = [op for op in all_ops() if op[0] != 'mixed']
     with concurrent.futures.ThreadPoolExecutor(max_workers=12) as ex:
         r1 = list(ex.map(purity.pristine, ops))
         r2 = list(ex.map(purity.pristine, ops))
@@ -67,6 +69,8 @@ def plan(tier):
     calls = [op for op in ops if op[0] == 'call']
     for i in range(0, len(calls)):
         items.append({'kind': 'pairs', 'first': calls[i], 'seconds': calls, 'ref': ref})
+    for k in MIXED:
+        items.append({'kind': 'pairs', 'first': ['mixed', k, 0], 'seconds': [c for c in calls if c[1] == k], 'ref': ref})
     if tier == 'thorough':
         # stateless enumeration of all call triples (with their constructions): independent of the state merge
         for a in calls:
@@ -128,7 +132,9 @@ def _step(env, op, ref, res, history, tags):
     res['evals'] += 1
     ok = True
     want = ref.get(_key(op))
-    if want is None:
+    if op[0] == 'mixed':
+        want = got
+    elif want is None:
         want = purity.pristine(op)
     if op[0] == 'call':
         if got['args_before'] != got['args_after']:
@@ -170,7 +176,7 @@ def _replay(history, ref, res, check=False):
     _snap().reset()
     env = {'inst': {}, 'keep': []}
     for j, op in enumerate(history):
-        if op[0] == 'call' and op[1] not in env['inst']:
+        if op[0] in ('call', 'mixed') and op[1] not in env['inst']:
             return None
         if check:
             _step(env, op, ref, res, history[:j], [])
@@ -202,7 +208,7 @@ def _run_hist(item, res):
         for hist in frontier:
             live = {op[1] for op in hist if op[0] == 'construct'}
             for op in ops:
-                if op[0] == 'call' and op[1] not in live:
+                if op[0] in ('call', 'mixed') and op[1] not in live:
                     continue
                 env = _replay(hist, ref, res)
                 tags = ['hist:' + op[0]] + (['gradmode:' + op[3]] if op[0] == 'call' else [])
@@ -231,7 +237,7 @@ def _run_pairs(item, res):
         env = _replay(hist, ref, res)
         _step(env, b, ref, res, hist, ['pairs'])
         res['ophashes'].append(hidden._digest(repr([a, b]).encode()))
-    res.regime('pairs', 'gradmode:' + a[3])
+    res.regime('pairs', 'gradmode:' + a[3] if a[0] == 'call' else 'pairs:mixed_dtype_first')
     res.state('pairs', _key(a))
     _snap().reset()
 
